@@ -110,7 +110,7 @@ def rule_line(chk, prefix="C10", flush=True):
     if not writes:
         # bound methods of the file cached on the record at construction?
         new_ = _fd(chk, "__new__")
-        fparam = [a.arg for a in new_.node.args.args][1]
+        fparam = new_.pos_params[1]
         cached = {}
         for n in iter_own_nodes(new_.node):
             if isinstance(n, ast.Call):
@@ -124,7 +124,7 @@ def rule_line(chk, prefix="C10", flush=True):
                     % (sorted(set(cached.values())), sorted(cached)))
             return
     where = chk.where(f)
-    mparam = [a.arg for a in f.node.args.args][1]
+    mparam = f.pos_params[1]
 
     def cnt(lst):
         return lambda n: sum(1 for x in lst if x[0] is n)
@@ -219,7 +219,7 @@ def json_arms(chk):
                 v = v.func.value
             if not isinstance(v, ast.Call):
                 return None
-            params = [a.arg for a in defn.args.args]
+            params = [a.arg for a in defn.args.posonlyargs + defn.args.args]
             kw = {k.arg: k.value for k in v.keywords}
             passes = len(v.args) == 1 and isinstance(v.args[0], ast.Name) and v.args[0].id == params[0] \
                 and "default" in kw and isinstance(kw["default"], ast.Name) and kw["default"].id == "default" and "default" in params \
@@ -295,7 +295,7 @@ def rule_mode(chk):
     ctx = chk.ctx
     f = _fd(chk, "__new__")
     cfg = ctx.cfg(f)
-    fparam = [a.arg for a in f.node.args.args][1]
+    fparam = f.pos_params[1]
     # the probe: <file>.write(b"") inside try with an `except TypeError` handler assigning the flag
     probe = None
     for n in iter_own_nodes(f.node):
@@ -396,7 +396,7 @@ def rule_default(chk):
             good="_json_default = the caller's json_default (after the deprecated-encoder shim)", fail="the record's _json_default is not the caller's json_default")
     # helper returns its json_default unchanged when no encoder is given
     hcfg = ctx.cfg(helper)
-    hp = [a.arg for a in helper.node.args.args]
+    hp = helper.pos_params
     okh = True
     for r in common.returns_of(hcfg):
         if not (isinstance(r.ast.value, ast.Name) and r.ast.value.id == hp[1]):
